@@ -143,15 +143,9 @@ func c06RunChar(c c06Char) error {
 	if maxW == nil {
 		return &ev.Skip{Why: "nothing accepted"}
 	}
-	if len(cell.Rejected) > 0 {
-		// the whole-process probability below assumes what C02 states: a rejected
-		// attempt is followed by a complete fresh one, at most MaxTrials in all
-		if cell.All != nil {
-			if _, err := chainCheck(r, cell, cell.Rejected[:1]); err != nil {
-				return err
-			}
-		}
-	}
+	// (the whole-process probability below takes the attempts to be identically
+	// distributed and at most MaxTrials in number - C02's and C13's statements,
+	// checked there)
 	q := cell.RejW
 	p := new(big.Rat).Set(maxW)
 	if q.Sign() > 0 {
